@@ -28,6 +28,12 @@
              dirty.S.L.I     … and the received copy is NOT the message as it was published (every handler edits its copy in
                              place – payload field replaced, hop counter incremented, mark set – so a redelivery that carries
                              the edits of the failed attempt shows here)
+             uf.S.L.I.ctx|panic   invocation I failed WITHOUT a scripted fault: the stage honours the context of the message it
+                             is handed and that context was already cancelled at delivery (ctx), or the handler panicked where
+                             nothing was scripted, e.g. the received copy's metadata cannot be written (panic).  The failure goes
+                             to the Router like any other (Nack, redelivery); the harness pauses 1..50 ms before it returns
+             livelock.S.L    more than 20 such failures of the deliveries of lineage L at stage S: the harness stops waiting
+                             (the trace then ends with `stuck` without the 30 s wait)
              ft.S.L.I.K      scripted fault K injected into invocation I (hc / pw: a handler / publisher error that
                              satisfies errors.Is(err, context.Canceled) – for the property an error like any other)
              pc.S.L.I        publisher wrapper entered (handler returned its output)
@@ -65,6 +71,8 @@ inductive Ev
   | settle (st l inv : Nat) (ack : Bool)
   | sinkRecv (l : Nat)
   | stopped (st : Nat)
+  | unscripted (st l inv : Nat)
+  | livelock (st l : Nat)
   | sinkVia (l st : Nat)
   | finish
   | stuck
@@ -90,6 +98,9 @@ def parseEv (tok : String) : Option Ev :=
   | ["sr", l, "err"] => do some (.srcRet (← l.toNat?) false)
   | ["sk", l] => do some (.sinkRecv (← l.toNat?))
   | ["stop", s] => do some (.stopped (← s.toNat?))
+  | ["uf", s, l, i, "ctx"] => do some (.unscripted (← s.toNat?) (← l.toNat?) (← i.toNat?))
+  | ["uf", s, l, i, "panic"] => do some (.unscripted (← s.toNat?) (← l.toNat?) (← i.toNat?))
+  | ["livelock", s, l] => do some (.livelock (← s.toNat?) (← l.toNat?))
   | ["sb", l, s] => do some (.sinkVia (← l.toNat?) (← s.toNat?))
   | ["hs", s, l, i] => do some (.hStart (← s.toNat?) (← l.toNat?) (← i.toNat?))
   | ["pc", s, l, i] => do some (.pubCall (← s.toNat?) (← l.toNat?) (← i.toNat?))
@@ -177,6 +188,7 @@ structure MS where
   sunk      : List Nat := []                  -- (derived) lineages received by the sink
   via       : List (Nat × Nat) := []          -- (lineage, branch stage) of the copies received by the sink
   halted    : List Nat := []                  -- stages whose handler the harness stopped
+  livelock  : Bool := false                   -- a delivery kept failing without any scripted fault
   done      : Bool := false
 
 def nackedAllRedelivered (m : MS) : Bool :=
@@ -202,6 +214,8 @@ def monStep (widths : List Nat) (branches : List Nat) (m : MS) : Ev → Except S
   | .pubInner .. => .ok m
   | .pubRet .. => .ok m
   | .stopped st => .ok { m with halted := st :: m.halted }
+  | .unscripted .. => .ok m      -- a single unexplained failure is not yet a loss: the message is redelivered
+  | .livelock .. => .ok { m with livelock := true }
   | .sinkVia l st => .ok { m with via := (l, st) :: m.via }
   | .pubAccepted _ _ inv j => .ok { m with accepted := (inv, j) :: m.accepted }
   -- "A stage gives a message up (Ack) only after the next topic accepted its output" – every output of that invocation
@@ -225,7 +239,9 @@ def monStep (widths : List Nat) (branches : List Nat) (m : MS) : Ev → Except S
     else if !(allBranchesDelivered branches m) then .error "delivered(lineage-missing-behind-a-surviving-branch)"
     else .ok { m with done := true }
   | .stuck =>
-    if !(allDelivered (fanBefore widths widths.length) m) then .error "delivered(stuck:lineage-missing-at-sink)"
+    -- "once the faults stop it reaches the final topic": here the faults have stopped and the delivery still fails, again and again
+    if m.livelock then .error "delivered(livelock:redelivery-keeps-failing-although-the-faults-stopped)"
+    else if !(allDelivered (fanBefore widths widths.length) m) then .error "delivered(stuck:lineage-missing-at-sink)"
     else if !(nackedAllRedelivered m) then .error "redelivered(stuck:nacked-copy-never-redelivered)"
     else if !(allBranchesDelivered branches m) then .error "delivered(stuck:lineage-missing-behind-a-surviving-branch)"
     else .error "stuck(no-quiescence-within-liveness-bound)"
